@@ -101,6 +101,8 @@ def scenarios(tier: str) -> List[Dict[str, Any]]:
         {"internal": {"0": [["num", "v2", 1]]}},
         {"internal": {"L": [["num", "v3", 3]], "0": [["formula", "C2H3", 1]]}},
         {"nterm": [["formula", "H-2O", 1]], "cterm": [["num", "v1", 1]], "internal": {"0": [["num", "v2", 2]], "L": [["num", "v3", 1]]}},
+        {"cterm": [["formula", "C2H3", 1]], "nterm": [["formula", "[13C2]N", 2]]},
+        {"cterm": [["formula", "O", 2]], "internal": {"L": [["formula", "C2H3", 1]]}},
     ]
     out = []
     for seq in seqs:
